@@ -436,8 +436,13 @@ class IntegratorScipylsoda(IntegratorScipyDop853):
         # interpolate back to the asked time, effictively getting the single
         # integration step we want. The first step and abrupt changes in the
         # `rhs` can cause exceptions to this, but _backstep catch those cases.
-        safe_delta = self._ode_solver._integrator.rwork[11]/100 + 1e-15
         t_ode = self._ode_solver.t
+        # lsoda refuses `tout - t < 2 * eps * |t|`: 1e-15 is too small once
+        # |t| >= 2.
+        safe_delta = (
+            self._ode_solver._integrator.rwork[11]/100
+            + max(1e-15, 4 * np.spacing(abs(t_ode)))
+        )
 
         if t > self._front and t_ode >= self._front:
             # The state is at self._front, do a step
